@@ -550,10 +550,15 @@ def cmp(op, a, b):
     # canonical orientation: constant on the right; gt/ge rewritten to lt/le
     if op in CMP_SWAP and (not isinstance(a, T)) and isinstance(b, T):
         a, b, op = b, a, CMP_SWAP[op]
-    if op in ("eq", "ne") and isinstance(a, T) and isinstance(b, T) and sortkey(a) > sortkey(b):
-        a, b = b, a
+    if op in CMP_SWAP and isinstance(a, T) and isinstance(b, T) and sortkey(a) > sortkey(b):
+        a, b, op = b, a, CMP_SWAP[op]  # `n > i` and `i < n` are one term
     if op in ("in", "notin") and isinstance(b, (list, tuple)) and is_conc(b):
         b = tuple(b)
+        if not (b and b[0] in ("#list", "#tuple")):
+            try:  # membership in a constant collection does not depend on order or repetition
+                b = tuple(sorted(set(b), key=repr))
+            except TypeError:
+                pass
         if len(b) == 1:
             return cmp("eq" if op == "in" else "ne", a, b[0])
     if op in ("in", "notin") and isinstance(b, range) and b.step == 1:
@@ -605,11 +610,43 @@ def land(items):
             continue
         if a not in out:
             out.append(a)
+    out = _merge_membership(out, "ne", "notin")
     if not out:
         return True
     if len(out) == 1:
         return out[0]
     return T("land", out, BOOL)
+
+
+def _merge_membership(items, single, multi):
+    """x == c1 or x == c2 (x != c1 and x != c2) is x in (c1, c2) (x not in (c1, c2)): one canonical term."""
+    groups = []
+    for a in items:
+        if isinstance(a, T) and a.op == "cmp" and a.args[0] in (single, multi) and isinstance(a.args[1], T):
+            c = a.args[2]
+            vals = None
+            if a.args[0] == single and is_conc(c) and not isinstance(c, (list, tuple, dict)):
+                vals = (c,)
+            elif a.args[0] == multi and isinstance(c, tuple) and is_conc(c) and not (c and c[0] in ("#list", "#tuple")):
+                vals = c
+            if vals is not None:
+                for g in groups:
+                    if g[0] == "m" and veq(g[1], a.args[1]):
+                        g[2].extend(vals)
+                        break
+                else:
+                    groups.append(["m", a.args[1], list(vals), a])
+                continue
+        groups.append(["o", a])
+    out = []
+    for g in groups:
+        if g[0] == "o":
+            out.append(g[1])
+        elif len(g[2]) == 1 or (g[3].args[0] == multi and len(set(map(repr, g[2]))) == len(g[3].args[2])):
+            out.append(g[3])
+        else:
+            out.append(cmp(multi, g[1], tuple(g[2])))
+    return out
 
 
 def lor(items):
@@ -621,6 +658,7 @@ def lor(items):
             continue
         if a not in out:
             out.append(a)
+    out = _merge_membership(out, "eq", "in")
     if not out:
         return False
     if len(out) == 1:
